@@ -19,6 +19,8 @@ CONSTANTS
   FailSet = {0}
   MaxReq = 1
   SharedBuf = FALSE
+  Deadl = FALSE
+  KACloseOnDone = FALSE
   MmEncodeInAdd = FALSE
 INVARIANT NoSplice
 CHECK_DEADLOCK FALSE
